@@ -192,6 +192,9 @@ type Exec struct {
 	instDone   map[string]bool
 	recDepth   map[string]int
 	noMergeTop bool
+	covers     bool   // generate vacuity covers (thorough tier)
+	coverProp  string // ... for the clauses of this property only
+	coverVCs   []*VC
 	noMergeAll bool              // keep every path through inlined helpers apart (many small conjunctive VCs)
 	onlyProp   string            // generate only the obligations tagged with this property
 	rename     map[string]string // parameter renaming for the second copy of a self-composed run
@@ -825,8 +828,19 @@ func (x *Exec) Run() (err error) {
 		t := x.trBool(env, r.E)
 		st.assume(t)
 	}
+	if x.covers && len(x.c.Requires) > 0 {
+		x.addCover(st, "cover/requires", nil, "the preconditions (with the well-formedness facts of the parameters) are satisfiable")
+	}
 	x.runBlock(st, fn.Blocks[0])
 	return nil
+}
+
+// addCover records a vacuity cover: assumptions that must NOT be refutable.
+func (x *Exec) addCover(st *State, name string, extra []Term, src string) {
+	as := append([]Term(nil), st.pc...)
+	as = append(as, extra...)
+	x.coverVCs = append(x.coverVCs, &VC{Name: x.fname + "/" + name, Fn: x.fname, Kind: "cover", Assumes: as, Goal: False,
+		Trace: strings.Join(st.trace, ">"), Src: src, uses: x.c.Lemmas})
 }
 
 func (x *Exec) envFor(st *State, results []Val) *Env {
@@ -1330,6 +1344,15 @@ func (x *Exec) doReturn(st *State, in *ssa.Return) {
 		lbl := c.Label
 		if lbl == "" {
 			lbl = fmt.Sprintf("post%d", i)
+		}
+		if x.covers && c.Prop != "" && (x.coverProp == "" || c.Prop == x.coverProp) {
+			if b, ok := c.E.(EBin); ok && b.Op == "==>" {
+				func() {
+					defer func() { recover() }()
+					prem := x.trBool(env, b.L)
+					x.addCover(st, "cover/"+lbl, []Term{prem}, "the premise of the clause is reachable on at least one path: "+c.Src)
+				}()
+			}
 		}
 		x.addVC(st, "ensures", "ensures/"+lbl, c.Prop, in.Pos(), t, c.Src)
 		// later postconditions may rely on earlier ones (all of them are proved)
